@@ -187,7 +187,10 @@ func mapLiteral(p *pkgInfo, varName string) (keys []string, vals []string) {
 					}
 					found = true
 					for _, el := range cl.Elts {
-						kv := el.(*ast.KeyValueExpr)
+						kv, ok := el.(*ast.KeyValueExpr)
+						if !ok {
+							die("%s is no longer a keyed literal (element %s): the fact F2 cannot be read", varName, exprStr(el))
+						}
 						keys = append(keys, exprStr(kv.Key))
 						vals = append(vals, exprStr(kv.Value))
 					}
